@@ -19,6 +19,9 @@ import (
 type c15Case struct {
 	Mode string  `json:"mode"` // pt-seg2 | seg-seg2 | pt-line2 | perp2 | pt-seg3 | seg-seg3 | pt-pt3
 	V    []ref.F `json:"v"`
+	// Stride > 2 (pt-line2 only): the line string is handed over in layout XYZ / XYZM / Layout(5)
+	// with distractor values in the extra ordinates
+	Stride int `json:"stride,omitempty"`
 }
 
 func init() {
@@ -51,7 +54,7 @@ func c15Exec(c *engine.Ctx, cs c15Case) {
 	}
 	tol := 1e-9 * scale
 	fail := func(what, desc string) {
-		c.Violate(cs.Mode+"/"+what, fmt.Sprintf("%s; arguments %v", desc, v), "c15", cs)
+		c.Violate(cs.Mode+"/"+what, clipStr(fmt.Sprintf("%s; arguments %v", desc, v), 2500), "c15", cs)
 	}
 	check := func(name string, got float64, exact2 *big.Rat) bool {
 		if math.IsNaN(got) {
@@ -104,7 +107,24 @@ func c15Exec(c *engine.Ctx, cs c15Case) {
 					exact2 = d2
 				}
 			}
-			ok = check("DistanceFromPointToLineString", xy.DistanceFromPointToLineString(geom.XY, co2(p), line), exact2)
+			lay, pc := geom.XY, co2(p)
+			if cs.Stride > 2 {
+				lay = map[int]geom.Layout{3: geom.XYZ, 4: geom.XYZM, 5: geom.Layout(5)}[cs.Stride]
+				wide := make([]float64, 0, n*cs.Stride)
+				for i := 0; i < n; i++ {
+					wide = append(wide, line[2*i], line[2*i+1])
+					for k := 2; k < cs.Stride; k++ {
+						wide = append(wide, float64(1e7+i*k))
+					}
+				}
+				line = wide
+				pc = make(geom.Coord, cs.Stride)
+				pc[0], pc[1] = p.X, p.Y
+				for k := 2; k < cs.Stride; k++ {
+					pc[k] = -5e6
+				}
+			}
+			ok = check("DistanceFromPointToLineString", xy.DistanceFromPointToLineString(lay, pc, line), exact2)
 		case "pt-seg3":
 			p, a, b := p3(v, 0), p3(v, 1), p3(v, 2)
 			exact2 = ref.PointSeg2(p, a, b)
@@ -228,6 +248,77 @@ func c15Run(c *engine.Ctx) {
 			c15Exec(c, c15Case{Mode: "pt-pt3", V: []ref.F{ref.F(a[0]), ref.F(a[1]), ref.F(a[2]), ref.F(b[0]), ref.F(b[1]), ref.F(math.NaN())}})
 			c15Exec(c, c15Case{Mode: "pt-pt3", V: f3(a, b)})
 		}
+	})
+	// long line strings (every vertex count 2..70, then up to 1003): "star" zig-zags that alternate
+	// between far vertices and near vertices whose distance to the query region shrinks along the
+	// line, so that late, long segments arriving from far away carry the minimum; both directions
+	// of the line; query points on a 5x5 lattice around the centre; strides 2..5
+	var counts []int
+	for n := 2; n <= 70; n++ {
+		counts = append(counts, n)
+	}
+	counts = append(counts, 96, 103, 128, 129, 200, 257, 1003)
+	dirs := [][2]float64{{1, 0}, {1, 1}, {0, 1}, {-1, 1}, {-1, 0}, {-1, -1}, {0, -1}, {1, -1}, {2, 1}, {-1, 2}}
+	c.Parallel(len(counts), func(ci int) {
+		n := counts[ci]
+		for _, R := range []float64{1000, 37} {
+			pts := make([][2]float64, n)
+			for k := 0; k < n; k++ {
+				d := dirs[(k/2*3+k)%len(dirs)]
+				if k%2 == 0 {
+					pts[k] = [2]float64{R * d[0], R * d[1]}
+				} else {
+					r := float64(n-k)/2 + 2
+					pts[k] = [2]float64{r * d[0], r * d[1]}
+				}
+			}
+			for _, rev := range []bool{false, true} {
+				for qx := -2; qx <= 2; qx++ {
+					for qy := -2; qy <= 2; qy++ {
+						v := []ref.F{ref.F(qx), ref.F(qy)}
+						for k := range pts {
+							q := pts[k]
+							if rev {
+								q = pts[n-1-k]
+							}
+							v = append(v, ref.F(q[0]), ref.F(q[1]))
+						}
+						c.Count("long_linestring_queries", 1)
+						c15Exec(c, c15Case{Mode: "pt-line2", V: v, Stride: 2 + (n+qx+2)%4})
+					}
+				}
+			}
+		}
+	})
+	// 3D: long, nearly parallel segments on the grid up to 2^20 (crossing, touching or skew by a
+	// few lattice steps): the closest-approach parameters are badly conditioned there
+	type s3 struct{ a, b, p, q [3]float64 }
+	var long3 []s3
+	sh := [][3]float64{{0, 0, 0}, {0, 1, 0}, {0, 0, 1}, {0, 1, 1}, {1, 0, 0}, {0, -1, 2}, {0, 3, 0}, {2, 1, -1}}
+	for _, L := range []float64{1<<17 + 1, 1 << 20, 999983} {
+		for _, d := range [][3]float64{{L, 0, 0}, {L, 7, 0}, {L, L - 1, 0}, {L, 5, L - 3}, {3, L, 11}} {
+			for _, s1 := range sh {
+				for _, s2 := range sh {
+					a := [3]float64{0, 0, 0}
+					b := d
+					long3 = append(long3, s3{a, b, [3]float64{a[0] + s1[0], a[1] + s1[1], a[2] + s1[2]}, [3]float64{b[0] - s2[0], b[1] - s2[1], b[2] - s2[2]}})
+					long3 = append(long3, s3{a, b, [3]float64{a[0] + s1[0], a[1] + s1[1], a[2] + s1[2]}, [3]float64{b[0] + s2[0], b[1] + s2[1], b[2] + s2[2]}})
+					// second segment much shorter, alongside the middle of the first
+					m := [3]float64{math.Floor(d[0] / 2), math.Floor(d[1] / 2), math.Floor(d[2] / 2)}
+					long3 = append(long3, s3{a, b, [3]float64{m[0] + s1[0], m[1] + s1[1], m[2] + s1[2]}, [3]float64{m[0] + math.Floor(d[0]/8) - s2[0], m[1] + math.Floor(d[1]/8) - s2[1], m[2] + math.Floor(d[2]/8) - s2[2]}})
+				}
+			}
+		}
+	}
+	c.Note("long_3d_configurations", len(long3))
+	c.Parallel(len(long3), func(i int) {
+		t := long3[i]
+		if t.p == t.q {
+			return
+		}
+		c.Count("long_3d_cases", 1)
+		c15Exec(c, c15Case{Mode: "seg-seg3", V: f3(t.a, t.b, t.p, t.q)})
+		c15Exec(c, c15Case{Mode: "pt-seg3", V: f3(t.p, t.a, t.b)})
 	})
 	if c.Get("touching") == 0 || c.Get("apart") == 0 {
 		c.Warn("vacuous: touching or apart class empty")
